@@ -126,6 +126,7 @@ fn presented(v: &OV, src: &str) -> OV {
 pub fn enc_ov(v: &OV) -> J {
     match v {
         OV::Null => rec("null"),
+        OV::Poison => rec("poison"),
         OV::Bool(b) => {
             let mut r = rec("bool");
             r["b"] = json!(b);
